@@ -226,14 +226,16 @@ inline void genComp(Rng& r) {
   gv::stratum("ixs:comp"); gv::run("ixs_comp", {hx(delta), hx(px), hx(py), hx(qx), hx(qy), hx(p0x), hx(p0y)});
 }
 
-inline void generate(Rng& r, bool thorough) {
-  long n = thorough ? 40000 : 9000;
+inline void generate(Rng& r, bool thorough, int K = 1) {
+  auto Q = [&](long v) { return std::max<long>(1, v / K); };   // K slices: the orchestrating generate() runs the parts round-robin
+
+  long n = Q(thorough ? 40000 : 9000);
   // constants of every ellipsoid of the strata
   { const double W = 1 / 298.257223563;
     c17isect::Ell es[] = {{6378137, W, 0}, {6378137, 0, 0}, {6.4e6, 0, 0}, {6378137, 0.015, 0}, {6378137, -0.015, 0}, {6378137, W, 1}, {6.4e6, 1 / 50.0, 1}, {6.4e6, -1 / 50.0, 1},
                           {6.4e6, 0.1, 1}, {6.4e6, -0.1, 1}, {6378137, 1 / 150.0, 0}, {6378388, 1 / 297.0, 0}, {6.4e6, 0.2, 1}, {6.4e6, -0.25, 1}, {1, 0.01, 0}, {6.4e6, 0, 1}};
     for (auto& e : es) { Args a; putEll(a, e); gv::stratum("ixs:consts-" + c17isect::ellTag(e)); gv::run("ixs_consts", a); }
-    for (int i = 0; i < (thorough ? 120 : 30); ++i) {
+    for (int i = 0; i < Q(thorough ? 120 : 30); ++i) {
       int k = r.irange(0, 5); double f = k == 0 ? r.range(-0.25, 0.2) : k == 1 ? r.pick(std::vector<double>{-0.25, 0.2, -0.3, 0.3, 0.35, -0.35, 0.4, -0.4, 0.5, -1, 0.9, 0.99}) : k == 2 ? r.range(-0.6, 0.6) : k == 3 ? r.range(-0.02, 0.02) : k == 4 ? r.range(0.3, 0.4) : r.range(-0.4, -0.3);
       c17isect::Ell e{r.coin() ? 6378137.0 : 6.4e6 * r.range(0.5, 2), f, (std::fabs(f) > 0.02 || r.coin()) ? 1 : 0};
       Args a; putEll(a, e); gv::stratum("ixs:ctor"); gv::run("ixs_ctor", a); } }
